@@ -300,39 +300,41 @@ func e6EndpointAssign(p *Prog, r *Report, fn *Func, as *ast.AssignStmt, sel *ast
 	// only ranges that may be emitted matter: the variable is used as a Range value in a
 	// literal / returned / passed on, other than to byte-slicing helpers
 	rv := baseObj(info, sel.X)
-	emitted := false
-	ast.Inspect(fn.Body, func(n ast.Node) bool {
-		switch x := n.(type) {
-		case *ast.KeyValueExpr:
-			if id, ok := ast.Unparen(x.Value).(*ast.Ident); ok && info.ObjectOf(id) == rv {
-				emitted = true
-			}
-		case *ast.ReturnStmt:
-			for _, res := range x.Results {
-				if id, ok := ast.Unparen(res).(*ast.Ident); ok && info.ObjectOf(id) == rv {
+	emitted := rangeVarEmitted(fn, rv)
+	if false {
+		ast.Inspect(fn.Body, func(n ast.Node) bool {
+			switch x := n.(type) {
+			case *ast.KeyValueExpr:
+				if id, ok := ast.Unparen(x.Value).(*ast.Ident); ok && info.ObjectOf(id) == rv {
 					emitted = true
 				}
-			}
-		case *ast.CallExpr:
-			name := lastSel(x.Fun)
-			if name == "bytesFromRange" || name == "SliceBytes" || name == "bytesInRange" || name == "ContainsPos" {
-				return true
-			}
-			for i, a := range x.Args {
-				if id, ok := ast.Unparen(a).(*ast.Ident); ok && info.ObjectOf(id) == rv {
-					// parameter role: a parameter whose name starts with "prefix" is only sliced
-					if f := calleeOf(info, x); f != nil {
-						sig := f.Type().(*types.Signature)
-						if i < sig.Params().Len() && strings.HasPrefix(strings.ToLower(sig.Params().At(i).Name()), "prefix") {
-							continue
-						}
+			case *ast.ReturnStmt:
+				for _, res := range x.Results {
+					if id, ok := ast.Unparen(res).(*ast.Ident); ok && info.ObjectOf(id) == rv {
+						emitted = true
 					}
-					emitted = true
+				}
+			case *ast.CallExpr:
+				name := lastSel(x.Fun)
+				if name == "bytesFromRange" || name == "SliceBytes" || name == "bytesInRange" || name == "ContainsPos" {
+					return true
+				}
+				for i, a := range x.Args {
+					if id, ok := ast.Unparen(a).(*ast.Ident); ok && info.ObjectOf(id) == rv {
+						// parameter role: a parameter whose name starts with "prefix" is only sliced
+						if f := calleeOf(info, x); f != nil {
+							sig := f.Type().(*types.Signature)
+							if i < sig.Params().Len() && strings.HasPrefix(strings.ToLower(sig.Params().At(i).Name()), "prefix") {
+								continue
+							}
+						}
+						emitted = true
+					}
 				}
 			}
-		}
-		return true
-	})
+			return true
+		})
+	}
 	if !emitted {
 		r.Add("E6.ordered-endpoints", fn.Name, construct, p.Pos(as), OK, "the range is only used to slice bytes (bounds judged by E4.P3)", false)
 		return
@@ -498,4 +500,46 @@ func e6LoopCarried(p *Prog, r *Report, fn *Func) {
 		})
 		return true
 	})
+}
+
+// rangeVarEmitted: the range variable may be handed back to the client — it is used as a value
+// in a literal, returned, or passed on other than to byte-slicing helpers and prefix parameters.
+func rangeVarEmitted(fn *Func, rv types.Object) bool {
+	info := fn.Info()
+	emitted := false
+	ast.Inspect(fn.Body, func(n ast.Node) bool {
+		switch x := n.(type) {
+		case *ast.KeyValueExpr:
+			if id, ok := ast.Unparen(x.Value).(*ast.Ident); ok && info.ObjectOf(id) == rv {
+				emitted = true
+			}
+		case *ast.ReturnStmt:
+			for _, res := range x.Results {
+				if id, ok := ast.Unparen(res).(*ast.Ident); ok && info.ObjectOf(id) == rv {
+					emitted = true
+				}
+			}
+		case *ast.CallExpr:
+			name := lastSel(x.Fun)
+			if name == "bytesFromRange" || name == "SliceBytes" || name == "bytesInRange" || name == "ContainsPos" {
+				return true
+			}
+			for i, a := range x.Args {
+				if id, ok := ast.Unparen(a).(*ast.Ident); ok && info.ObjectOf(id) == rv {
+					if f := calleeOf(info, x); f != nil {
+						sig := f.Type().(*types.Signature)
+						if i < sig.Params().Len() {
+							pn := strings.ToLower(sig.Params().At(i).Name())
+							if strings.HasPrefix(pn, "prefix") || strings.HasPrefix(pn, "remaining") {
+								continue
+							}
+						}
+					}
+					emitted = true
+				}
+			}
+		}
+		return true
+	})
+	return emitted
 }
